@@ -236,6 +236,62 @@ func runC18ProdPair(c *harness.Case, proxyOn bool, peerTLS string) {
 			c.Stat("follower_watches_refused", 1)
 		}
 	}
+	// ---- list-then-watch through the follower: a watch from a revision that lies in the past must begin with the first
+	// change at or after it (or be refused) - the revision has to survive the hand-over to the leader
+	{
+		lr, lerr := B.etcdGRPC.Range(ctx, &etcdserverpb.RangeRequest{Key: []byte(full), RangeEnd: []byte(fullEnd)})
+		if lerr == nil {
+			R := lr.Header.GetRevision()
+			var revs []int64
+			for i := 0; i < 3; i++ {
+				cr, cerr := A.brainGRPC.Create(ctx, &pb.CreateRequest{Key: []byte(fmt.Sprintf("%s/pp/after-list-%d", P, i)), Value: []byte("w")})
+				if cerr != nil || !cr.Succeeded {
+					c.Inconclusive("leader write failed")
+					return
+				}
+				revs = append(revs, int64(cr.Header.GetRevision()))
+			}
+			A.n.WaitCommitted(uint64(revs[2]), 30*time.Second)
+			wctx, wcancel := context.WithCancel(ctx)
+			fw := newFakeWatchServer(wctx)
+			done := make(chan error, 1)
+			go func() { done <- B.etcdGRPC.Watch(fw) }()
+			fw.in <- &etcdserverpb.WatchRequest{RequestUnion: &etcdserverpb.WatchRequest_CreateRequest{CreateRequest: &etcdserverpb.WatchCreateRequest{Key: []byte(full), RangeEnd: []byte(fullEnd), StartRevision: R + 1}}}
+			time.Sleep(300 * time.Millisecond)
+			tail, terr := A.brainGRPC.Create(ctx, &pb.CreateRequest{Key: []byte(P + "/pp/after-watch"), Value: []byte("w")})
+			var got []int64
+			cancelled := false
+			for i := 0; i < 40 && !cancelled; i++ {
+				time.Sleep(50 * time.Millisecond)
+				got = got[:0]
+				for _, m := range fw.snapshot() {
+					if m.Canceled {
+						cancelled = true
+					}
+					for _, ev := range m.Events {
+						got = append(got, ev.Kv.ModRevision)
+					}
+				}
+				select {
+				case <-done:
+					cancelled = true
+				default:
+				}
+				if terr == nil && len(got) > 0 && got[len(got)-1] >= int64(tail.Header.GetRevision()) {
+					break
+				}
+			}
+			wcancel()
+			note("list at %d through the follower, leader writes at %v, watch from %d through the follower delivered revisions %v (cancelled=%v)", R, revs, R+1, got, cancelled)
+			if len(got) > 0 && got[0] != revs[0] {
+				c.Violatef("C18 forwarded-watch-does-not-start-at-the-requested-revision path=production-pair", wit(), "a watch from revision %d sent to the follower first delivered revision %d; the first change at or after %d is revision %d (the stream went on past changes it did not deliver)", R+1, got[0], R+1, revs[0])
+				return
+			}
+			if len(got) > 0 {
+				c.Stat("list_then_watch_through_the_follower", 1)
+			}
+		}
+	}
 	c.AddSet("production_pair", fmt.Sprintf("proxy=%v peer-tls=%s", proxyOn, peerTLS))
 	c.Fingerprint(true, "production-pair", proxyOn, c.Index)
 	c.R.Sample = map[string]interface{}{"case": c.R.Name, "requests": log}
